@@ -217,14 +217,51 @@ namespace verif
             rep.sample("credentials user=" + printable(user, 40) + " password=" + printable(pass, 40));
             try
             {
-                Pistache::Http::Header::Authorization a;
-                a.setBasicUserPassword(user, pass);
+                // The header is a value: it may be copied or moved before it is read, and its source may be given
+                // other credentials or go away meanwhile (derived from the lengths, no choice consumed).
+                using Auth = Pistache::Http::Header::Authorization;
+                static const char* LIFE[] = { "read from the object that was set", "move-constructed, source given other credentials", "move-assigned, source given other credentials",
+                                              "copied, source destroyed", "move-constructed, source destroyed and its memory re-used" };
+                unsigned life = unsigned(user.size() + 2 * pass.size()) % 5;
+                rep.label(std::string("credentials:") + LIFE[life]);
+                std::unique_ptr<Auth> src(new Auth()), held;
+                src->setBasicUserPassword(user, pass);
+                const std::string other_user(user.size(), 'Z'), other_pass(pass.size(), 'y');
+                std::vector<std::unique_ptr<Auth>> scribble;
+                switch (life)
+                {
+                case 0:
+                    held = std::move(src);
+                    break;
+                case 1:
+                    held.reset(new Auth(std::move(*src)));
+                    src->setBasicUserPassword(other_user, other_pass);
+                    break;
+                case 2:
+                    held.reset(new Auth());
+                    *held = std::move(*src);
+                    src->setBasicUserPassword(other_user, other_pass);
+                    break;
+                case 3:
+                    held.reset(new Auth(*src));
+                    src.reset();
+                    break;
+                default:
+                    held.reset(new Auth(std::move(*src)));
+                    src.reset();
+                    for (int k = 0; k < 4; ++k)
+                    {
+                        scribble.emplace_back(new Auth());
+                        scribble.back()->setBasicUserPassword(other_user, other_pass);
+                    }
+                }
+                Auth& a = *held;
                 V_CHECK(a.getMethod() == Pistache::Http::Header::Authorization::Method::Basic, "C20/basic-method",
                         "getMethod() != Basic after setBasicUserPassword");
                 V_CHECK(a.hasMethod<Pistache::Http::Header::Authorization::Method::Basic>(), "C20/basic-method", "hasMethod<Basic> false");
                 std::string u = a.getBasicUser(), p = a.getBasicPassword();
-                V_CHECK(u == user, "C20/basic-user", "getBasicUser()=" + printable(u, 60) + " expected " + printable(user, 60));
-                V_CHECK(p == pass, "C20/basic-password", "getBasicPassword()=" + printable(p, 60) + " expected " + printable(pass, 60));
+                V_CHECK(u == user, "C20/basic-user", "getBasicUser()=" + printable(u, 60) + " expected " + printable(user, 60) + " (" + LIFE[life] + ")");
+                V_CHECK(p == pass, "C20/basic-password", "getBasicPassword()=" + printable(p, 60) + " expected " + printable(pass, 60) + " (" + LIFE[life] + ")");
                 V_CHECK(a.value() == "Basic " + ref_encode(user + ":" + pass), "C20/basic-text", "header text not 'Basic ' + canonical base64: " + a.value());
                 // header text survives write -> parse -> write
                 std::ostringstream os;
